@@ -10,6 +10,9 @@ at the top-level directory.
 */
 
 #include "slu_mt_ddefs.h"
+#ifdef SLU_MT_VERIF
+#include "slu_mt_verif.h"
+#endif /* SLU_MT_VERIF */
 
 void
 *pdgstrf_thread(void *arg)
@@ -207,7 +210,13 @@ void
 	TIC(t);
 #endif
 	/* Get a panel from the scheduler. */
+#ifdef SLU_MT_VERIF
+	SLUV_YIELD(SLUV_Y_LOOP_TOP);
+#endif /* SLU_MT_VERIF */
 	pxgstrf_scheduler(pnum, n, etree, &jcol, &bcol, pxgstrf_shared);
+#ifdef SLU_MT_VERIF
+	SLUV_YIELD(SLUV_Y_SCHED_EXIT);
+#endif /* SLU_MT_VERIF */
 
 #if ( DEBUGlevel>=1 )
     if ( jcol>=LOCOL && jcol<=HICOL ) {
@@ -224,6 +233,9 @@ void
 	    
 	if ( jcol != EMPTY ) {
 	    w = pxgstrf_shared->pan_status[jcol].size;
+#ifdef SLU_MT_VERIF
+	    SLUV_EVENT(SLUV_E_PANEL_BEGIN, pnum, jcol, w, pxgstrf_shared->pan_status[jcol].type, 0, 0);
+#endif /* SLU_MT_VERIF */
 
 #if ( DEBUGlevel>=3 )
 	    printf("P%2d got panel %5d-%5d\ttime %.4f\tpanels_left %d\n",
@@ -257,6 +269,13 @@ void
 #endif
 		}
 
+#ifdef SLU_MT_VERIF
+		SLUV_YIELD(SLUV_Y_BEFORE_RELEASE);
+		for (jj = jcol; jj < jcol + w; ++jj) {
+		    SLUV_EVENT(SLUV_E_COL_RELEASE, pnum, jj, jcol, 0, 0, 0);
+		    SLUV_TSAN_RELEASE(&pxgstrf_shared->spin_locks[jj]);
+		}
+#endif /* SLU_MT_VERIF */
 		/* Release the whole relaxed supernode */
 		for (jj = jcol; jj < jcol + w; ++jj) 
 		    pxgstrf_shared->spin_locks[jj] = 0;
@@ -270,6 +289,9 @@ void
 #endif
 		pxgstrf_mark_busy_descends(pnum, jcol, etree, pxgstrf_shared, 
 					   &bcol, lbusy);
+#ifdef SLU_MT_VERIF
+		SLUV_EVENT(SLUV_E_MARK_BUSY, pnum, jcol, bcol, 0, 0, 0);
+#endif /* SLU_MT_VERIF */
 		
 		/* Symbolic factor on a panel of columns */
 		pdgstrf_panel_dfs
@@ -316,6 +338,9 @@ void
 		/* Inner-factorization, using sup-col algorithm */
 		for ( jj = jcol; jj < jcol + w; jj++) {
 		    k = (jj - jcol) * m; /* index into w-wide arrays */
+#ifdef SLU_MT_VERIF
+		    SLUV_EVENT(SLUV_E_COL_BEGIN, pnum, jj, jcol, 0, 0, 0);
+#endif /* SLU_MT_VERIF */
 		    nseg = nseg1; /* begin after all the panel segments */
 #ifdef PROFILE
 		    TIC(t);
@@ -359,9 +384,19 @@ void
 #endif
 			}
 
+#ifdef SLU_MT_VERIF
+		    SLUV_YIELD(SLUV_Y_AFTER_PIVOT);
+		    SLUV_EVENT(SLUV_E_COL_PIVOTED, pnum, jj, pivrow, *info, 0, 0);
+		    SLUV_YIELD(SLUV_Y_BEFORE_RELEASE);
+		    SLUV_EVENT(SLUV_E_COL_RELEASE, pnum, jj, jcol, 0, 0, 0);
+		    SLUV_TSAN_RELEASE(&pxgstrf_shared->spin_locks[jj]);
+#endif /* SLU_MT_VERIF */
                     /* release column "jj", so that the other processes
                        waiting for this column can proceed */
 		    pxgstrf_shared->spin_locks[jj] = 0;
+#ifdef SLU_MT_VERIF
+		    SLUV_YIELD(SLUV_Y_AFTER_RELEASE);
+#endif /* SLU_MT_VERIF */
 		    
 		    /* copy the U-segments to ucol[*] */
 		    if ( (*info = pdgstrf_copy_to_ucol
@@ -369,6 +404,9 @@ void
 				     perm_r, &dense[k], pxgstrf_shared)) )
 		      return 0;
 
+#ifdef SLU_MT_VERIF
+		    SLUV_YIELD(SLUV_Y_BEFORE_PRUNE);
+#endif /* SLU_MT_VERIF */
 		    /* Prune columns [0:jj-1] using column jj */
 		    pxgstrf_pruneL(jj, perm_r, pivrow, nseg, segrep,
 				   &repfnz[k], xprune, ispruned, Glu);
@@ -390,6 +428,11 @@ void
 		
 	    } /* else regular panel ... */
 	    
+#ifdef SLU_MT_VERIF
+	    SLUV_YIELD(SLUV_Y_BEFORE_DONE);
+	    SLUV_EVENT(SLUV_E_PANEL_DONE, pnum, jcol, w, 0, 0, 0);
+	    SLUV_TSAN_RELEASE(&pxgstrf_shared->pan_status[jcol]);
+#endif /* SLU_MT_VERIF */
 	    STATE( jcol ) = DONE; /* Release panel jcol. */
 	    
 #ifdef PROFILE
